@@ -1,5 +1,5 @@
 CONSTANTS
-  Tokens = {"sac", "itk"}
+  Tokens = {"sac", "itk", "nv"}
   Accts = {"alice", "bob", "carol", "gs"}
 INIT Init
 NEXT Next
